@@ -113,7 +113,7 @@ Print Assumptions C09_code_send_request_spr_P.
 
 (* ---- the code is the model (regenerated each run): the real Client.send_request on a symbolic clock inside / after the context managers
    (tools/symtrans.py, Gen/Fn_SendContext.v) - a bare suppress block after one that waited for negative replies does not wait; after a block requests are ordinary again ---- *)
-From UDS Require Import Gen.Fn_SendContext Model.Services Proofs.Tie_send_common Proofs.Tie_send_flush Proofs.Tie_send_ctx.
+From UDS Require Import Gen.Fn_SendContext Model.Client Model.Services Proofs.Tie_send_common Proofs.Tie_send_flush Proofs.Tie_send_ctx.
 
 Theorem C09_code_send_request_bare_after_wait_silence : forall cfg T P2 P2S now, timing cfg (Some T) P2 P2S ->
   fn_send_request_bare_after_wait_silence T P2 P2S now = ret (obs_full (send_request cfg st_bare_after_wait tp_req (-1) now [])).
